@@ -189,7 +189,7 @@ impl Group for C18Unit {
          2^bits window, then get_secret); non-trivial = a case holding at least one key derivation and one tree query \
          with bits > 0"
     }
-    fn budget(&self, tier: Tier) -> usize { if tier == Tier::Quick { 120 } else { 4000 } }
+    fn budget(&self, tier: Tier) -> usize { if tier == Tier::Quick { 1200 } else { 12000 } }
     fn corpus(&self) -> Vec<Vec<String>> {
         let s1 = "01".repeat(32);
         let s2 = "02".repeat(32);
@@ -608,7 +608,7 @@ impl Group for C18Node {
          create the ids in another order; non-trivial = at least two distinct channel ids, at least one restart or second \
          instantiation, and at least one secret released by a real revoke"
     }
-    fn budget(&self, tier: Tier) -> usize { if tier == Tier::Quick { 70 } else { 2500 } }
+    fn budget(&self, tier: Tier) -> usize { if tier == Tier::Quick { 600 } else { 6000 } }
     fn corpus(&self) -> Vec<Vec<String>> {
         let seed = "07".repeat(32);
         let pa = format!("02{}", "aa".repeat(32));
